@@ -1,18 +1,24 @@
 (** C05 – Redraw throttling: bounded frame rate and bounded staleness.
-    Only statements; every proof is [exact <lemma from IndProofs.LimiterProofs>].
+    Only statements; every proof is [exact <lemma from IndProofs.Limiter*Proofs>].
     Instants are integer nanoseconds.  [rl_*] = RateLimiter of a draw target
-    (src/draw_target.rs:428-480), [ap_*] = the limiter inside AtomicPosition
-    (src/state.rs:535-607), [sys_*] = a bar in front of a target (model/Limiter.v). *)
-From IndModel Require Import Base Limiter.
-From IndProofs Require Import LimiterProofs.
+    (src/draw_target.rs:441-493), [ap_*] = the limiter inside AtomicPosition
+    (src/state.rs:540-612), [sys_*] = a stand-alone bar, or the members of a MultiProgress, in
+    front of a target (model/Limiter.v).  All statement vocabulary is defined in model/Limiter.v
+    (and model/LimiterSys.v for the agreement theorem); what is restricted carries `_partial`.
+    Order: limiter level (verdicts of `allow`), then system level (painted frames of [sys_run],
+    both configurations), then the stand-alone bar, then MultiProgress members on model/Sys.v. *)
+From IndModel Require Import Base Limiter LimiterSys.
+From IndProofs Require Import LimiterProofs LimiterSysProofs LimiterAgree.
 From Coq Require Import NArith List.
 Import ListNotations.
 Open Scope N_scope.
 
-(** WINDOW BOUND, draw target.  For every refresh rate R in 1..=255, every creation instant,
-    every non-decreasing sequence of (non-forced) redraw requests and every window
-    [s, s+T]: the number of requests answered `true` (= frames painted) satisfies
-    count <= 20 + R*T + 1 with T in seconds, i.e. count * 10^9 <= 21 * 10^9 + R * T_ns. *)
+(** WINDOW BOUND, draw target's limiter.  For every refresh rate R in 1..=255, every creation
+    instant, every non-decreasing sequence of (non-forced) redraw requests and every window
+    [s, s+T]: the number of requests answered `true` by `allow` satisfies
+    count <= 20 + R*T + 1 with T in seconds, i.e. count * 10^9 <= 21 * 10^9 + R * T_ns.
+    (Verdicts of the limiter; the same bound for the FRAMES of the system is
+    C05_sys_window_bound below.) *)
 Theorem C05_window_bound : forall (R t0 : N) (ts : list N) (s T : N),
   1 <= R <= 255 -> nondec t0 ts ->
   allowed_in s (s + T) ts (rl_run (rl_new R t0) ts) * 1000000000 <= 21 * 1000000000 + R * T.
@@ -41,7 +47,7 @@ Print Assumptions C05_liveness.
 
 (** NO UNDERFLOW + NORMAL FORM, draw target.  In every state reachable from `new` by a
     non-decreasing request sequence, the next call returns [Ok] (neither the `- 1` at
-    draw_target.rs:470 nor the `checked_sub().unwrap()` at :473-475 can panic, no cast
+    draw_target.rs:483 nor the `checked_sub().unwrap()` at :486-488 can panic, no cast
     truncates), capacity <= 20, prev lies on the grid t0 + k*I and is not in the future, and an
     allowed call sets new = floor(elapsed / I), capacity := min(20, capacity + new) - 1 >= 0,
     prev := prev + new * I. *)
@@ -70,7 +76,7 @@ Print Assumptions C05_interval.
 (** WINDOW BOUND, position limiter (inc/dec/set_position): in every window [s, s+T] at most
     10 + T/1ms + 1 updates request a redraw: count * 10^6 <= 11 * 10^6 + T_ns.  reset() calls
     may be interleaved.  Hypothesis [ap_times_ok]: the bar is younger than 2^64 ns (584 years),
-    so that `as_nanos() as u64` (state.rs:561) does not truncate. *)
+    so that `as_nanos() as u64` (state.rs:566) does not truncate. *)
 Theorem C05_pos_window_bound : forall (t0 : N) (ops : list apop) (s T : N),
   nondec t0 (map apop_time ops) -> ap_times_ok t0 ops ->
   allowed_in s (s + T) (map apop_time ops) (ap_run (ap_new t0) ops) * 1000000
@@ -87,7 +93,7 @@ Theorem C05_pos_liveness : forall (t0 : N) (ops : list apop) (now : N),
 Proof. exact ap_liveness. Qed.
 Print Assumptions C05_pos_liveness.
 
-(** NO UNDERFLOW + NORMAL FORM, position limiter (state.rs:579 `- 1`, :583 `elapsed - remainder`). *)
+(** NO UNDERFLOW + NORMAL FORM, position limiter (state.rs:584 `- 1`, :588 `elapsed - remainder`). *)
 Theorem C05_ap_normal_form : forall (t0 : N) (ops : list apop) (now : N),
   nondec t0 (map apop_time (ops ++ [AReq now])) -> now < t0 + U64 ->
   exists s, ap_exec (ap_new t0) ops = Ok s /\
@@ -101,13 +107,104 @@ Theorem C05_ap_normal_form : forall (t0 : N) (ops : list apop) (now : N),
 Proof. exact ap_normal_form. Qed.
 Print Assumptions C05_ap_normal_form.
 
-(** STALENESS.  A stand-alone bar (no steady ticker) on a target with refresh rate R, driven by
-    any non-decreasing sequence of inc/dec/set_position/tick/set_message/set_length/reset calls:
-    at the instant of EVERY call (the last one of [ops]; every prefix is again such a sequence)
-    a frame has been painted, and the most recent one is younger than one refresh interval
-    plus 1 ms.  Since a painted frame shows the then-latest state (next theorem), a continuously
-    updated bar is never more than I + 1 ms stale. *)
-Theorem C05_staleness : forall (R t0 tb len0 : N) (ops : list (N * bop)),
+(** ------------------------------------------------------------------------------------------
+    SYSTEM LEVEL: painted frames of [sys_run], BOTH configurations ([multi] = false: a stand-alone
+    bar on term_like_with_hz(R); [multi] = true: the bars are members of one MultiProgress over
+    that target), any number of bars with any creation instants and lengths, calls on any bar. *)
+
+(** NO PANIC, direct statement.  For every configuration (throttled with R in 1..=255, or the
+    unthrottled term_like target), and EVERY call history - no hypothesis on the instants at all,
+    they may even decrease - the run is a list of [Ok] outcomes, one per call: no call panics
+    (the model has the four panic sites of the two `allow` functions as explicit outcomes,
+    model/Limiter.v).  Stronger than the reachable-state statements C05_rl_normal_form /
+    C05_ap_normal_form in one respect: the `- 1` and the two subtractions cannot underflow in ANY
+    limiter state with a positive interval, reachable or not. *)
+Theorem C05_no_panic : forall (multi : bool) (rate : option N) (t0 : N) (bars : list (N * N))
+                              (ops : list (N * N * bop)),
+  (forall R, rate = Some R -> 1 <= R <= 255) ->
+  exists outs, sys_run (sys_new (multi, rate, t0, bars)) ops = map Ok outs
+               /\ length outs = length ops.
+Proof. exact sys_no_panic. Qed.
+Print Assumptions C05_no_panic.
+
+(** WINDOW BOUND for FRAMES.  In every window [s, s+T] the number of calls that painted a frame
+    ([frames_in]: outcome [Ok (_, Some _)], instant in the window) satisfies
+    count * 10^9 <= 21 * 10^9 + R * T_ns, i.e. count <= 20 + R*T + 1.  Every frame of this model
+    is a non-forced one (finish / println / suspend are not among [bop]).  Proof: the calls that
+    ask the target's limiter are a non-decreasing subsequence of the call instants, a frame is
+    painted iff the limiter answers `true`, then C05_window_bound. *)
+Theorem C05_sys_window_bound : forall (multi : bool) (R t0 : N) (bars : list (N * N))
+                                      (ops : list (N * N * bop)) (s T : N),
+  1 <= R <= 255 -> nondec t0 (map op_time ops) ->
+  frames_in s (s + T) (map op_time ops) (sys_run (sys_new (multi, Some R, t0, bars)) ops) * 1000000000
+  <= 21 * 1000000000 + R * T.
+Proof. exact sys_window. Qed.
+Print Assumptions C05_sys_window_bound.
+
+(** the tighter bound the code meets, for frames: 20 + ceil(T / I) *)
+Theorem C05_sys_window_bound_tight : forall (multi : bool) (R t0 : N) (bars : list (N * N))
+                                            (ops : list (N * N * bop)) (s T : N),
+  1 <= R <= 255 -> nondec t0 (map op_time ops) ->
+  frames_in s (s + T) (map op_time ops) (sys_run (sys_new (multi, Some R, t0, bars)) ops)
+  <= 20 + (T + rl_interval_of R - 1) / rl_interval_of R.
+Proof. exact sys_window_tight. Qed.
+Print Assumptions C05_sys_window_bound_tight.
+
+(** LIVENESS for FRAMES.  After any history, a call at an instant [now] at least one refresh
+    interval after the last PAINTED FRAME ((now - f) * R >= 10^9; or no frame painted yet) does
+    not panic, and if it asks for a redraw at all ([requested]: tick / set_message / set_length /
+    reset of an existing bar always; inc / dec / set_position iff the bar's position limiter let
+    the update through, which the outcome's [reached] flag reports) then it paints a frame.
+    Whose call painted the last frame does not matter (any member of the MultiProgress). *)
+Theorem C05_sys_liveness : forall (multi : bool) (R t0 : N) (bars : list (N * N))
+                                  (ops : list (N * N * bop)) (now i : N) (o : bop),
+  1 <= R <= 255 -> nondec t0 (map op_time (ops ++ [(now, i, o)])) ->
+  (forall f, last_paint None (map op_time ops)
+               (sys_run (sys_new (multi, Some R, t0, bars)) ops) = Some f ->
+             1000000000 <= (now - f) * R) ->
+  exists reached fr,
+    sys_run (sys_new (multi, Some R, t0, bars)) (ops ++ [(now, i, o)])
+    = sys_run (sys_new (multi, Some R, t0, bars)) ops ++ [Ok (reached, fr)]
+    /\ (requested (length bars) i o reached = true -> fr <> None).
+Proof. exact sys_liveness. Qed.
+Print Assumptions C05_sys_liveness.
+
+(** FRAME AGE (staleness, first half), both configurations, any number of members.  The target
+    and all bars exist at [lo]; calls on existing bars ([ops_valid]) at non-decreasing instants
+    from [lo] on, any mix of the seven operations on any members: at the instant of EVERY call
+    (the last one of [ops]; every prefix is again such a history) a frame has been painted - by
+    whichever member's call - and the most recent one is younger than one refresh interval plus
+    1 ms.  _partial: this bounds the AGE of the last frame.  That the frame also shows the
+    calling member's then-latest state is C05_nothing_lost (second conjunct, model/Sys.v) for
+    members in sync, and FAILS for a member whose last position update was refused by its own
+    position limiter (C05_nothing_lost_member_refuted, open finding D27); for a stand-alone bar
+    it is C05_nothing_lost_partial. *)
+Theorem C05_frame_age_partial : forall (multi : bool) (R t0 lo : N) (bars : list (N * N))
+                                       (ops : list (N * N * bop)),
+  1 <= R <= 255 -> t0 <= lo -> (forall tb l, In (tb, l) bars -> tb <= lo) ->
+  ops <> [] -> ops_valid (length bars) ops -> nondec lo (map op_time ops) ->
+  (forall t tb l, In t (map op_time ops) -> In (tb, l) bars -> t < tb + U64) ->
+  exists f, last_paint None (map op_time ops)
+              (sys_run (sys_new (multi, Some R, t0, bars)) ops) = Some f
+            /\ f <= last (map op_time ops) 0
+            /\ last (map op_time ops) 0 < f + rl_interval_of R + 1000000.
+Proof. exact sys_frame_age. Qed.
+Print Assumptions C05_frame_age_partial.
+
+(** ------------------------------------------------------------------------------------------
+    THE STAND-ALONE BAR. *)
+
+(** STALENESS (stand-alone).  A stand-alone bar (no steady ticker) on a target with refresh rate
+    R, driven by any non-decreasing sequence of inc/dec/set_position/tick/set_message/set_length/
+    reset calls: at the instant of EVERY call (the last one of [ops]; every prefix is again such
+    a sequence) a frame has been painted, and the most recent one is younger than one refresh
+    interval plus 1 ms.  Since a painted frame of a stand-alone bar shows the then-latest state
+    (next theorem), a continuously updated stand-alone bar is never more than I + 1 ms stale.
+    _partial: stand-alone bar only (MultiProgress: C05_frame_age_partial above + the MultiProgress
+    theorems at the end), and [t0 <= tb]: the draw target is at least as old as the bar, which
+    is what ProgressBar::with_draw_target(len, target) gives; a target attached later with
+    set_draw_target is covered by C05_frame_age_partial ([lo] = the later of the two). *)
+Theorem C05_staleness_partial : forall (R t0 tb len0 : N) (ops : list (N * bop)),
   1 <= R <= 255 -> t0 <= tb -> ops <> [] ->
   nondec tb (map fst ops) -> (forall t, In t (map fst ops) -> t < tb + U64) ->
   exists f, last_paint None (map fst ops)
@@ -115,13 +212,17 @@ Theorem C05_staleness : forall (R t0 tb len0 : N) (ops : list (N * bop)),
             /\ f <= last (map fst ops) 0
             /\ last (map fst ops) 0 < f + rl_interval_of R + 1000000.
 Proof. exact std_staleness. Qed.
-Print Assumptions C05_staleness.
+Print Assumptions C05_staleness_partial.
 
 (** NOTHING LOST (stand-alone bar): the k-th call either paints nothing or paints exactly the
     state obtained by applying ALL calls 0..k to the initial state ([upd] ignores the limiters),
     whatever happened to the redraw requests of the earlier calls; and it never panics.
-    _partial: the MultiProgress case (rows of the other members show their state as of their
-    own last request) is covered by the correspondence and the oracle only, see docs/C05.md. *)
+    _partial: stand-alone bar with [t0 <= tb] only.  The MultiProgress case is C05_nothing_lost
+    and the three theorems after it (on model/Sys.v): the rows of the other members show their
+    state as of their own last draw step, which is the latest state except in the open finding
+    D27; see docs/C05.md.  On this model the statement is close to the definition of
+    [sys_request] (a stand-alone bar renders its live state at paint time): its content is that
+    no limiter verdict influences the stored state.  A row is (pos, len, msg), no prefix. *)
 Theorem C05_nothing_lost_partial : forall (R t0 tb len0 : N) (ops : list (N * bop)) (k : nat) (out : sout),
   1 <= R <= 255 -> t0 <= tb ->
   nondec tb (map fst ops) -> (forall t, In t (map fst ops) -> t < tb + U64) ->
@@ -130,14 +231,6 @@ Theorem C05_nothing_lost_partial : forall (R t0 tb len0 : N) (ops : list (N * bo
     (fr = None \/ fr = Some [fold_left upd (firstn (S k) (map snd ops)) (0, len0, 0)]).
 Proof. exact std_nothing_lost. Qed.
 Print Assumptions C05_nothing_lost_partial.
-
-(** every call of such a history produces an outcome: the run is never cut short by a panic *)
-Theorem C05_no_panic : forall (R t0 tb len0 : N) (ops : list (N * bop)),
-  1 <= R <= 255 -> t0 <= tb ->
-  nondec tb (map fst ops) -> (forall t, In t (map fst ops) -> t < tb + U64) ->
-  length (sys_run (sys_new (false, Some R, t0, [(tb, len0)])) (std_ops ops)) = length ops.
-Proof. exact std_no_panic. Qed.
-Print Assumptions C05_no_panic.
 
 (** Documentation: the code BEFORE the fix commits violated the window bound.
     D12 (e4a1051): 20 Hz, full bucket, 21 requests at 99.999999 ms and one at 100 ms – all 22
@@ -153,6 +246,29 @@ Theorem C05_old_code_refuted :
         <= 21 * 1000000000 + 255 * 999000000)).
 Proof. exact old_code_refuted. Qed.
 Print Assumptions C05_old_code_refuted.
+
+(** THE TWO TRANSCRIPTIONS OF THE LIMITERS AGREE.  model/Limiter.v (this file's theorems up to
+    here) and model/Sys.v (the drawing-system model used by the MultiProgress theorems at the end
+    and by C01-C04, C06, C18, C19) each contain RateLimiter::{new,allow} and AtomicPosition::{new,
+    allow,reset}.  Pointwise on verdict AND next state ([rl_to_sys], [ap_to_sys]: same fields):
+    the position limiters agree in every state; the target limiters agree in every state whose
+    interval is positive and at most 2^64 (every state reachable from `new` with R in 1..=255:
+    interval = ceil(10^9 / R) <= 10^9, C05_interval + C05_rl_normal_form) - Limiter.v never
+    answers [Panic] there.  Hence every limiter-level theorem above also speaks about the limiters
+    inside Sys.v.  (The two SYSTEM models - Limiter.sys_step and Sys.step - are not related by a
+    theorem; each is tied to the code by its own correspondence check.) *)
+Theorem C05_limiter_models_agree :
+  (forall R now, rl_to_sys (Limiter.rl_new R now) = Sys.rl_new R now) /\
+  (forall r now, 0 < Limiter.rl_interval r <= U64 ->
+     exists r' v, Limiter.rl_allow r now = Ok (r', v)
+                  /\ Sys.rl_allow (rl_to_sys r) now = (v, rl_to_sys r')) /\
+  (forall now, ap_to_sys (Limiter.ap_new now) = Sys.ap_new now) /\
+  (forall a now,
+     exists a' v, Limiter.ap_allow a now = Ok (a', v)
+                  /\ Sys.ap_allow (ap_to_sys a) now = (v, ap_to_sys a')) /\
+  (forall a now, ap_to_sys (Limiter.ap_reset a now) = Sys.ap_reset (ap_to_sys a) now).
+Proof. exact limiter_models_agree. Qed.
+Print Assumptions C05_limiter_models_agree.
 
 (** Non-vacuity: concrete histories that meet the hypotheses and exercise both verdicts. *)
 Example C05_nonvacuous_window :
@@ -195,6 +311,39 @@ Example C05_nonvacuous_system :
   nth_error (sys_run (sys_new (false, Some 1, 0, [(1, 100)])) (std_ops ops)) 23 = Some (Ok (true, None)) /\
   nth_error (sys_run (sys_new (false, Some 1, 0, [(1, 100)])) (std_ops ops)) 25 = Some (Ok (true, Some [(12, 55, 7)])) /\
   fold_left upd (firstn 26 (map snd ops)) (0, 100, 0) = (12, 55, 7).
+Proof. vm_compute. repeat split; discriminate. Qed.
+
+(* a MultiProgress at 1 Hz with members A (bar 0) and B (bar 1), everything created at 0:
+   A.inc(1) x 11 at 5 ns - ten reach and are painted, the eleventh is refused by A's position
+   limiter -, then B.tick() x 11 at 6 ns - ten painted (the bucket of 20 is empty), the last
+   refused -, a tick of B one nanosecond before the next token matures (refused) and one a full
+   interval after the last painted frame (painted) *)
+Definition c5_multi_ops : list (N * N * bop) :=
+  map (fun _ => (5, 0, OInc 1)) (seq 0 11) ++ map (fun _ => (6, 1, OTick)) (seq 0 11)
+  ++ [(999999999, 1, OTick); (1000000006, 1, OTick)].
+
+Example C05_nonvacuous_sys :
+  let cfg := (true, Some 1, 0, [(0, 100); (0, 100)]) in
+  let outs := sys_run (sys_new cfg) c5_multi_ops in
+  nondec 0 (map op_time c5_multi_ops) /\ ops_valid 2 c5_multi_ops /\
+  (* window [0, 999999999]: exactly the burst of 20 *)
+  frames_in 0 999999999 (map op_time c5_multi_ops) outs = 20 /\
+  (* the eleventh inc did not ask for a redraw; the tick at 999999999 asked and was refused; the
+     last painted frame before the final call is the one at 6 ns, the final tick comes one interval
+     later (hypothesis of C05_sys_liveness) and is painted; its frame shows A at 10 although A's
+     position is 11 (finding D27) *)
+  nth_error outs 10 = Some (Ok (false, None)) /\ requested 2 0 (OInc 1) false = false /\
+  nth_error outs 22 = Some (Ok (true, None)) /\ requested 2 1 OTick true = true /\
+  last_paint None (map op_time (firstn 23 c5_multi_ops)) (firstn 23 outs) = Some 6 /\
+  1000000000 <= (1000000006 - 6) * 1 /\
+  nth_error outs 23 = Some (Ok (true, Some [(10, 100, 0); (0, 100, 0)])) /\
+  last_paint None (map op_time c5_multi_ops) outs = Some 1000000006.
+Proof. vm_compute. repeat split; try discriminate; repeat constructor. Qed.
+
+Example C05_nonvacuous_agree :
+  0 < Limiter.rl_interval (Limiter.rl_new 255 7) <= U64 /\
+  Limiter.rl_allow (Limiter.rl_new 255 7) 9 = Ok (Limiter.mk_rl 3921569 19 7, true) /\
+  Sys.rl_allow (Sys.rl_new 255 7) 9 = (true, Sys.mkrl 3921569 19 7).
 Proof. vm_compute. repeat split; discriminate. Qed.
 
 (** ------------------------------------------------------------------------------------------
